@@ -24,6 +24,7 @@ import (
 	"github.com/google/pprof/internal/driver"
 	"github.com/google/pprof/internal/plugin"
 	"github.com/google/pprof/internal/verifrt"
+	"github.com/google/pprof/internal/verifrt/vos"
 	"github.com/google/pprof/profile"
 	"github.com/google/pprof/verifh/ap"
 	"github.com/google/pprof/verifh/drive"
@@ -204,6 +205,59 @@ func Scenarios() []Scenario {
 		sort.Strings(contents)
 		if strings.Join(contents, "") != "ABC" {
 			return "files on disk: " + final + " (a file was overwritten or lost)"
+		}
+		return ""
+	}})
+
+	// S4b: a temporary file is created while somebody who does not share pprof's locks (another pprof
+	// process saving into the same directory) takes names of the same series with exclusive creates:
+	// nobody ends up owning a name the other one owns, and no content is overwritten
+	out = append(out, Scenario{Name: "S4b/tempfile-vs-other-process", Setup: func() ([]func() string, func() string) {
+		dir := filepath.Join(drive.Sandbox(), "tmp", "s4b")
+		os.RemoveAll(dir)
+		os.MkdirAll(dir, 0755)
+		ours := func() string {
+			f, err := driver.VerifNewTempFile(dir, "pprof.", ".pb.gz")
+			if err != nil {
+				return "err " + err.Error()
+			}
+			f.WriteString("ours")
+			f.Close()
+			return f.Name()
+		}
+		other := func() string {
+			for i := 1; i <= 4; i++ {
+				name := filepath.Join(dir, fmt.Sprintf("pprof.%03d.pb.gz", i))
+				f, err := vos.OpenFile(name, os.O_RDWR|os.O_CREATE|os.O_EXCL, 0666)
+				if err != nil {
+					continue
+				}
+				f.WriteString("theirs")
+				f.Close()
+				return name
+			}
+			return "err no free name"
+		}
+		final := func() string {
+			ents, _ := os.ReadDir(dir)
+			var s []string
+			for _, e := range ents {
+				b, _ := os.ReadFile(filepath.Join(dir, e.Name()))
+				s = append(s, e.Name()+"="+string(b))
+			}
+			sort.Strings(s)
+			return strings.Join(s, ",")
+		}
+		return []func() string{ours, other}, final
+	}, Accept: func(res []string, final string) string {
+		if strings.HasPrefix(res[0], "err") || strings.HasPrefix(res[1], "err") {
+			return "a creation failed: " + res[0] + " / " + res[1]
+		}
+		if res[0] == res[1] {
+			return "pprof and the other process both own " + res[0] + "; on disk: " + final
+		}
+		if !strings.Contains(final, "=ours") || !strings.Contains(final, "=theirs") {
+			return "a file was overwritten or lost; on disk: " + final
 		}
 		return ""
 	}})
